@@ -7,6 +7,7 @@ package impl
 import (
 	"fmt"
 	"reflect"
+	"unicode/utf8"
 
 	"google.golang.org/protobuf/encoding/protowire"
 	"google.golang.org/protobuf/internal/strs"
@@ -467,9 +468,12 @@ func encoderFuncsForValue(fd protoreflect.FieldDescriptor) valueCoderFuncs {
 		case protoreflect.DoubleKind:
 			return coderDoubleSliceValue
 		case protoreflect.StringKind:
-			// We don't have a UTF-8 validating coder for repeated string fields.
 			// Value coders are used for extensions and maps.
-			// Extensions are never proto3, and maps never contain lists.
+			// Maps never contain lists, but extensions declared in a proto3
+			// or editions file can require UTF-8 validation.
+			if strs.EnforceUTF8(fd) {
+				return coderStringSliceValueValidateUTF8
+			}
 			return coderStringSliceValue
 		case protoreflect.BytesKind:
 			return coderBytesSliceValue
@@ -554,4 +558,45 @@ func encoderFuncsForValue(fd protoreflect.FieldDescriptor) valueCoderFuncs {
 		}
 	}
 	panic(fmt.Sprintf("invalid field: no encoder for %v %v %v", fd.FullName(), fd.Cardinality(), fd.Kind()))
+}
+
+// appendStringSliceValueValidateUTF8 encodes a []string value as a repeated String,
+// reporting an error for elements that are not valid UTF-8.
+func appendStringSliceValueValidateUTF8(b []byte, listv protoreflect.Value, wiretag uint64, opts marshalOptions) ([]byte, error) {
+	list := listv.List()
+	for i, llen := 0, list.Len(); i < llen; i++ {
+		v := list.Get(i)
+		b = protowire.AppendVarint(b, wiretag)
+		b = protowire.AppendString(b, v.String())
+		if !utf8.ValidString(v.String()) {
+			return b, errInvalidUTF8{}
+		}
+	}
+	return b, nil
+}
+
+// consumeStringSliceValueValidateUTF8 wire decodes a []string value as a repeated String,
+// reporting an error for elements that are not valid UTF-8.
+func consumeStringSliceValueValidateUTF8(b []byte, listv protoreflect.Value, _ protowire.Number, wtyp protowire.Type, opts unmarshalOptions) (_ protoreflect.Value, out unmarshalOutput, err error) {
+	list := listv.List()
+	if wtyp != protowire.BytesType {
+		return protoreflect.Value{}, out, errUnknown
+	}
+	v, n := protowire.ConsumeBytes(b)
+	if n < 0 {
+		return protoreflect.Value{}, out, errDecode
+	}
+	if !utf8.Valid(v) {
+		return protoreflect.Value{}, out, errInvalidUTF8{}
+	}
+	list.Append(protoreflect.ValueOfString(string(v)))
+	out.n = n
+	return listv, out, nil
+}
+
+var coderStringSliceValueValidateUTF8 = valueCoderFuncs{
+	size:      sizeStringSliceValue,
+	marshal:   appendStringSliceValueValidateUTF8,
+	unmarshal: consumeStringSliceValueValidateUTF8,
+	merge:     mergeListValue,
 }
